@@ -13,12 +13,14 @@ char * uuid_new(void) { char * r = malloc(37); r[36] = 0; return r; }
 void h_store_asset(void) {
 	scratch_pad * scratch = ALLOC(sizeof(scratch_pad));
 	scratch->asset_hash = NULL;
-	char * url = ALLOC(6); url[0] = 'a'; url[1] = '.'; url[2] = 'p'; url[3] = 'n'; url[4] = 'g'; url[5] = 0;
+	char * url = ALLOC(6); url[0] = '.'; url[1] = '/'; url[2] = 'a'; url[3] = '.'; url[4] = 'p'; url[5] = 0;      /* "./a.p": a relative URL as written in the source */
 	store_asset(scratch, url);
 	asset * a = scratch->asset_hash;
 	ASSERT(a != NULL && a->hh.next == NULL, "one asset stored");
 	ASSERT(a->url != url, "C01: the asset keeps its own copy of the URL");
 	ASSERT(a->hh.key == (void *)a->url && !__CPROVER_same_object(a->hh.key, url), "C01: the hash key of an asset points into the asset's own copy of the URL, not into the caller's buffer");
+	{ asset * found = NULL; HASH_FIND_STR(scratch->asset_hash, url, found);
+	  ASSERT(found == a, "C09: the table is keyed by the URL exactly as written: a lookup with the raw URL (as textbundle.c does when it rewrites the text) finds the stored asset"); }
 	store_asset(scratch, url);
 	ASSERT(scratch->asset_hash == a && a->hh.next == NULL, "storing the same URL again adds nothing");
 	REACH();
